@@ -1,0 +1,25 @@
+//go:build verif
+
+// Package verifhook provides named pause points for the runtime verification harness.
+// With the build tag "verif" a callback can be installed that is invoked at every point.
+package verifhook
+
+import "sync/atomic"
+
+var callback atomic.Pointer[func(string)]
+
+// Set installs (or, with nil, removes) the callback invoked by At.
+func Set(f func(point string)) {
+	if f == nil {
+		callback.Store(nil)
+		return
+	}
+	callback.Store(&f)
+}
+
+// At marks a named point in the code and calls the installed callback, if any.
+func At(point string) {
+	if f := callback.Load(); f != nil {
+		(*f)(point)
+	}
+}
